@@ -593,10 +593,10 @@ def fifths_mode_to_key_name(fifths, mode=None):
     else:
         raise Exception("Unknown mode {}".format(mode))
 
-    try:
-        name = keylist[fifths + 7]
-    except IndexError:
+    if not -7 <= fifths <= 7:
+        # negative list indices would silently wrap around to another key
         raise Exception("Unknown number of fifths {}".format(fifths))
+    name = keylist[fifths + 7]
 
     return name + suffix
 
